@@ -142,14 +142,17 @@ def _edit_lines(rng, text):
     return "".join(ls)
 
 
-def edit(rng, nb, n_edits=None, shapes=None, focus=None):
+EDIT_KINDS = ["src", "src", "src", "ins", "del", "move", "dup", "out", "ec", "md", "nbmd", "att"]
+
+
+def edit(rng, nb, n_edits=None, shapes=None, focus=None, kinds=None):
     """Return an edited deep copy.  focus: optional cell index both sides should touch."""
     nb = copy.deepcopy(nb)
     minor = nb.get("nbformat_minor", 4)
     used = {c.get("id") for c in nb["cells"] if "id" in c}
     for _ in range(rng.randint(1, 3) if n_edits is None else n_edits):
         cells = nb["cells"]
-        k = rng.choice(["src", "src", "src", "ins", "del", "move", "dup", "out", "ec", "md", "nbmd", "att"])
+        k = rng.choice(kinds or EDIT_KINDS)
         if not cells and k not in ("ins", "nbmd"):
             k = "ins"
         i = rng.randrange(len(cells)) if cells else 0
